@@ -34,26 +34,74 @@ def current_rank():
     return getattr(_tls, 'rank', 0)
 
 
-class _Patches(object):
-    """Replaces taurex.mpi entry points (and by-name copies) while active."""
+class _FakeComm(object):
+    """What taurex.mpi sees as mpi4py's MPI.COMM_WORLD: the lower-case
+    (pickling) collectives, the buffer broadcast and the barrier."""
 
-    TARGETS = ['get_rank', 'nprocs', 'allgather', 'allreduce', 'broadcast',
-               'barrier']
+    def __init__(self, world, mpi):
+        self._w = world
+        self._mpi = mpi
+
+    def Get_rank(self):
+        return self._w.get_rank()
+
+    def Get_size(self):
+        return self._w.nprocs()
+
+    def allgather(self, data):
+        return self._w.allgather(data)
+
+    def allreduce(self, value, op=None):
+        if op is not None and op is not self._mpi.SUM:
+            raise NotImplementedError('only MPI.SUM is modelled')
+        return self._w.allreduce(value, 'sum')
+
+    def bcast(self, obj, root=0):
+        return self._w._collective('bcast', obj, root)
+
+    def Bcast(self, buf, root=0):
+        # buffer broadcast: the root's array lands in every rank's own buffer
+        res = self._w._collective('bcast_nd', np.asarray(buf), root)
+        if res is not buf:
+            buf[...] = res
+
+    def Barrier(self):
+        return self._w.barrier()
+
+    barrier = Barrier
+
+
+class _Patches(object):
+    """While active: an in-process `mpi4py` whose COMM_WORLD is the simulated
+    world, so that the REAL wrappers in taurex/mpi.py (allgather, allreduce,
+    broadcast, barrier, only_master_rank) run; only get_rank/nprocs are
+    replaced directly, because they are lru_cached per process and the
+    simulated ranks are threads of one process."""
 
     def __init__(self, world):
         self.world = world
         self.saved = []
+        self.saved_modules = {}
 
     def __enter__(self):
         import sys
+        import types
         import taurex.mpi as tm
         w = self.world
+        mpi = types.ModuleType('mpi4py.MPI')
+        mpi.SUM = object()
+        mpi.COMM_TYPE_SHARED = object()
+        mpi.COMM_WORLD = _FakeComm(w, mpi)
+        pkg = types.ModuleType('mpi4py')
+        pkg.MPI = mpi
+        for name, mod in (('mpi4py', pkg), ('mpi4py.MPI', mpi)):
+            self.saved_modules[name] = sys.modules.get(name)
+            sys.modules[name] = mod
         repl = {'get_rank': w.get_rank, 'nprocs': w.nprocs,
-                'allgather': w.allgather, 'allreduce': w.allreduce,
-                'broadcast': w.broadcast, 'barrier': w.barrier}
-        for name, fn in repl.items():
+                'barrier': tm.barrier}
+        for name in ('get_rank', 'nprocs'):
             self.saved.append((tm, name, getattr(tm, name)))
-            setattr(tm, name, fn)
+            setattr(tm, name, repl[name])
         for modname in ('taurex.output.hdf5', 'taurex.optimizer.multinest',
                         'taurex.taurex'):
             mod = sys.modules.get(modname)
@@ -66,9 +114,16 @@ class _Patches(object):
         return self
 
     def __exit__(self, *exc):
+        import sys
         for mod, name, old in reversed(self.saved):
             setattr(mod, name, old)
         self.saved = []
+        for name, mod in self.saved_modules.items():
+            if mod is None:
+                sys.modules.pop(name, None)
+            else:
+                sys.modules[name] = mod
+        self.saved_modules = {}
 
 
 class SimWorld(object):
